@@ -149,6 +149,41 @@ static void sp_hmacfinal(const Args &a) {
     dump_sp(ev, m); ev.emit();
 }
 
+// One absorb call of hi * 2^32 + lo bytes against the same bytes in pieces (lengths that do not fit 32 bits: the
+// specification cannot evaluate 4 GiB, but it says that the result does not depend on the partition).  The input is
+// one 16 MiB pattern mapped back to back, read-only.
+#include <sys/mman.h>
+#include <unistd.h>
+static void big_run(const std::string &k, const bytes_t &pre, const uint8_t *p, size_t total, size_t piece, uint8_t *out) {
+    union { ascon_xof_state_t x; ascon_xofa_state_t xa; ascon_prf_state_t pr; } u; uint8_t key[16]; for (int i = 0; i < 16; ++i) key[i] = (uint8_t)(i * 17 + 1);
+    const uint8_t *pp = pre.empty() ? (const uint8_t *)"" : &pre[0];
+    if (k == "xof") ascon_xof_init(&u.x); else if (k == "xofa") ascon_xofa_init(&u.xa); else ascon_prf_init(&u.pr, key);
+    for (size_t off = 0, first = 1; first || off < total; first = 0) {
+        const uint8_t *d = first ? pp : p + off; size_t n = first ? pre.size() : (total - off < piece ? total - off : piece);
+        if (k == "xof") ascon_xof_absorb(&u.x, d, n); else if (k == "xofa") ascon_xofa_absorb(&u.xa, d, n); else ascon_prf_absorb(&u.pr, d, n);
+        if (!first) off += n;
+    }
+    if (k == "xof") { ascon_xof_squeeze(&u.x, out, 32); ascon_xof_free(&u.x); }
+    else if (k == "xofa") { ascon_xofa_squeeze(&u.xa, out, 32); ascon_xofa_free(&u.xa); }
+    else { ascon_prf_squeeze(&u.pr, out, 32); ascon_prf_free(&u.pr); }
+}
+static void sp_big(const Args &a) {
+    std::string k = kind_of(a); bytes_t pre = a.hex("pre");
+    size_t total = ((size_t)a.num("hi") << 32) + (size_t)a.num("lo"), unit = (size_t)16 << 20, span = ((total + unit - 1) / unit) * unit;
+    if (k != "xof" && k != "xofa" && k != "prf") fatal("sp.big kind");
+    int fd = memfd_create("big", 0); if (fd < 0 || ftruncate(fd, (off_t)unit) != 0) fatal("memfd");
+    uint8_t *w = (uint8_t *)mmap(0, unit, PROT_READ | PROT_WRITE, MAP_SHARED, fd, 0); if (w == (uint8_t *)MAP_FAILED) fatal("mmap");
+    for (size_t i = 0; i < unit; ++i) w[i] = (uint8_t)(i * 131 + (i >> 9) * 7 + (i >> 17));
+    munmap(w, unit);
+    uint8_t *base = (uint8_t *)mmap(0, span + 4096, PROT_NONE, MAP_PRIVATE | MAP_ANONYMOUS | MAP_NORESERVE, -1, 0); if (base == (uint8_t *)MAP_FAILED) fatal("mmap span");
+    for (size_t off = 0; off < span; off += unit) if (mmap(base + off, unit, PROT_READ, MAP_SHARED | MAP_FIXED, fd, 0) == MAP_FAILED) fatal("mmap fixed");
+    uint8_t one[32], pieces[32];
+    big_run(k, pre, base, total, total ? total : 1, one);
+    big_run(k, pre, base, total, ((size_t)1 << 30) + 5, pieces);
+    munmap(base, span + 4096); close(fd);
+    Ev ev("sp.big"); ev.s("kind", k).b("pre", pre).n("hi", a.num("hi")).n("lo", a.num("lo")).b("one", one, 32).b("pieces", pieces, 32); ev.emit();
+}
+
 static void sp_pad(const Args &a) {
     std::string k = kind_of(a); int id = (int)a.num("obj");
     void *m = obj_get(id, k.c_str()).mem;
@@ -281,7 +316,7 @@ static void os_hmac(const Args &a) {
 }
 
 void reg_sponge() {
-    reg("sp.init", sp_init); reg("sp.absorb", sp_absorb); reg("sp.squeeze", sp_squeeze);
+    reg("sp.init", sp_init); reg("sp.absorb", sp_absorb); reg("sp.big", sp_big); reg("sp.squeeze", sp_squeeze);
     reg("sp.hmacfinal", sp_hmacfinal); reg("sp.pad", sp_pad); reg("sp.copy", sp_copy); reg("sp.free", sp_free);
     reg("os.hash", os_hash); reg("os.prf", os_prf); reg("os.prf_short_big", os_prf_short_big); reg("os.mac_verify", os_mac_verify);
     reg("os.kmac", os_kmac); reg("os.kdf", os_kdf); reg("os.hmac", os_hmac);
